@@ -24,6 +24,7 @@ type tspCase struct {
 	// (weights 7i+j) on a writer of its own before it returns
 	ReI, ReJ, ReN int    `json:",omitempty"`
 	Sample        uint64 `json:",omitempty"` // n > 64: which write indices get a fault (all of them for smaller n)
+	NoFaults      bool   `json:",omitempty"` // only the fault-free output is checked (many large instances are affordable then)
 }
 
 func genTspCase(t *rapid.T) tspCase {
@@ -84,12 +85,17 @@ func genTspCase(t *rapid.T) tspCase {
 // genHugeTspCase: 129..140 cities (beyond any "small problem" code path), regular weights, sampled fault positions.
 func genHugeTspCase(t *rapid.T) tspCase {
 	n := rapid.SampledFrom([]int{65, 100, 127, 128, 129, 130, 140, 200}).Draw(t, "n")
-	mul := rapid.SampledFrom([]int{1, 1, 1000, -1, 1 << 40}).Draw(t, "scale")
+	mul := rapid.SampledFrom([]int{1, 1, 1000, -1, 1 << 40, 1 << 45, -(1 << 45)}).Draw(t, "scale") // up to 19 and 20 characters per weight
+	mixed := rapid.Bool().Draw(t, "mixedwidths")
+	seedMix := rapid.Uint64().Draw(t, "mixseed")
 	w := make([][]int, n)
 	for i := range w {
 		w[i] = make([]int, i)
 		for j := range w[i] {
 			w[i][j] = mul * (i*n + j)
+			if mixed && hashPrefix(seedMix, []int{i, j})%3 == 0 {
+				w[i][j] = (i + j) % 1000 // rows of entries of very different printed width
+			}
 		}
 	}
 	return tspCase{N: n, W: w, Sample: rapid.Uint64().Draw(t, "sample") | 1}
@@ -267,6 +273,11 @@ func checkTspCase(c tspCase, rec *Rec) error {
 	if !eqInts(got, want) {
 		return fmt.Errorf("LIB(n=%d) weight section is %v want %v", n, clipInts(got), clipInts(want))
 	}
+	if c.NoFaults {
+		rec.NonTrivial(n >= 2)
+		rec.Labelf("format-only-n-%d", bucket(n))
+		return nil
+	}
 	// every fault schedule: each Write index x {transient, permanent} x {no bytes, half the bytes}
 	W := ok.calls
 	rec.NonTrivial(n >= 2)
@@ -400,7 +411,31 @@ func init() {
 		Budget{Checks: 1200, Shards: 1}, Budget{Checks: 3000, Shards: 16}, genTspCase, checkTspCase)
 	RegisterRapid("C20_many_cities_sampled_faults",
 		"rapid: n in {65, 100, 127, 128, 129, 130, 140, 200} with the position-coded table scale*(i*n+j), scale in {1, 1000, -1, 2^40}; the fault-free output (tens of thousands of Write calls) is parsed and compared; faults (transient with 0 or all bytes accepted, permanent with half) are injected at the first 12 and the last 12 write indices and at about 40 pseudo-random indices in between. Non-trivial: always (n >= 65).",
-		Budget{Checks: 8, Shards: 2}, Budget{Checks: 24, Shards: 16}, genHugeTspCase, checkTspCase)
+		Budget{Checks: 20, Shards: 2}, Budget{Checks: 24, Shards: 16}, genHugeTspCase, checkTspCase)
+	RegisterRapid("C20_many_cities_format",
+		"rapid: n in 20..220 with weights of very different printed width in one table (10..90% of the entries within 1000 of MaxInt64 or MinInt64, i.e. 19 or 20 characters, the others in -1000..999, placed by a hash of the position); only the fault-free output is produced, parsed by the independent reader and compared with the table, so hundreds of large instances are affordable. Non-trivial: always.",
+		Budget{Checks: 150, Shards: 2}, Budget{Checks: 600, Shards: 16},
+		func(t *rapid.T) tspCase {
+			n := rapid.IntRange(20, 220).Draw(t, "fn")
+			seed := rapid.Uint64().Draw(t, "fseed")
+			longShare := rapid.IntRange(1, 9).Draw(t, "longshare") // tenths of the entries that are 19 or 20 characters long
+			c := tspCase{N: n, NoFaults: true, W: make([][]int, n)}
+			for i := range c.W {
+				c.W[i] = make([]int, i)
+				for j := range c.W[i] {
+					h := hashPrefix(seed, []int{i, j})
+					switch {
+					case int(h%10) >= longShare:
+						c.W[i][j] = int(h>>8)%2000 - 1000
+					case h&16 == 0:
+						c.W[i][j] = math.MaxInt64 - int(h>>8)%1000
+					default:
+						c.W[i][j] = math.MinInt64 + int(h>>8)%1000
+					}
+				}
+			}
+			return c
+		}, checkTspCase)
 	RegisterEnum("C20_small_n_exhaustive_faults",
 		"enumeration: every n in 0..12 with the fixed position-coded table w(i,j) = 100*i+j (and its negation), all 4*W fault schedules each; complete for that family.",
 		true, Budget{Shards: 1}, Budget{Shards: 1},
